@@ -4,7 +4,7 @@ HARNESS = ["records/c07_test.go"]
 GO_TEST = "TestVerifC07"
 RUN_MODULE = "Run_C07"
 COQ_TARGETS = ["Corr/Run_C07.vo", "Proofs/ProvidersProofs.vo"]
-N = {"quick": 600, "thorough": 8000}
+N = {"quick": 600, "thorough": 5000}
 RULE = ("random histories (5-85 operations + a final restart and a query of every key) of AddProvider / GetProviders / "
         "time.Sleep / restart / Close on the real ProviderManager in a synctest bubble, 1-12 keys (some are byte-prefixes "
         "of others) over a cache of 1-4 entries, 1-6 providers (one is the local peer), validity from a few ns to 48 h, "
